@@ -522,6 +522,12 @@ class Host(object):
         named = [op[kind] for kind in KINDS if op.get(kind)]
         shared = {p for p in named if named.count(p) > 1}
         for path in sorted(shared):
+            if fault_path == path:
+                # the injected read error hits only the first switch that opens the file; which of the later saves then
+                # apply depends on what the earlier ones left: not judged, and the model stops describing the file
+                res.stats["shared_target_with_read_error_not_judged"] += 1
+                self.model.pop(path, None)
+                continue
             self.judge_shared_target(r, op, path, before[path], ref, None if unstorable else new_file, k, unstorable)
         # the tool stops at the first container switch when there is no name
         stop = False
